@@ -197,6 +197,40 @@ def _words_for(trk, nums):
     return False
 
 
+def _bitnorm(v, depth=0):
+    """equal spellings of the word arithmetic: x & 63 == x % 64 (64 is a power of two), (!w).leading_zeros() == w.leading_ones(),
+    (!w).trailing_zeros() == w.trailing_ones(), iter(xs[k + 1..]) == iter(xs[k..]).skip(1)"""
+    if depth > 60:
+        return v
+    if isinstance(v, App):
+        args = [_bitnorm(a, depth + 1) for a in v.args]
+        if v.fn == "binop:BitAnd" and len(args) == 2:
+            for x, m in (args, args[::-1]):
+                c = rel.const_int(m)
+                if c is not None and c > 0 and (c & (c + 1)) == 0 and c + 1 == 64:
+                    return App("binop:Rem", [x, Const("usize", 64)])
+        if v.fn.endswith("::leading_zeros") or v.fn.endswith("::trailing_zeros"):
+            if len(args) == 1 and isinstance(args[0], App) and args[0].fn == "unop:Not" and len(args[0].args) == 1:
+                return App(v.fn.replace("leading_zeros", "leading_ones").replace("trailing_zeros", "trailing_ones"), [args[0].args[0]])
+        if v.fn == "std::iter::IntoIterator::into_iter" and len(args) == 1 and isinstance(args[0], App) and args[0].fn == "std::ops::Index::index" \
+                and len(args[0].args) == 2 and isinstance(args[0].args[1], Variant) and "Range" in args[0].args[1].adt:
+            # `for w in &xs[a..]` iterates the sub-slice like `xs[a..].iter()`
+            return App(v.fn, [_bitnorm(App("core::slice::<impl [T]>::iter", [args[0]]), depth + 1)])
+        if v.fn == "core::slice::<impl [T]>::iter" and len(args) == 1 and isinstance(args[0], App) and args[0].fn == "std::ops::Index::index" and len(args[0].args) == 2:
+            r = args[0].args[1]
+            if isinstance(r, Variant) and r.adt.endswith("RangeFrom"):
+                st = rel.canon(r.fields.get("start"))
+                if isinstance(st, App) and st.fn == "binop:Add" and len(st.args) == 2 and rel.const_int(st.args[1]) == 1:
+                    inner = App("core::slice::<impl [T]>::iter", [App("std::ops::Index::index", [args[0].args[0], Variant(r.adt, r.variant, {"start": st.args[0]})])])
+                    return App("std::iter::Iterator::skip", [inner, Const("usize", 1, text="1_usize")])
+        return App(v.fn, args, info=getattr(v, "info", None)) if hasattr(v, "info") else App(v.fn, args)
+    if isinstance(v, Variant):
+        return Variant(v.adt, v.variant, {k: _bitnorm(x, depth + 1) for k, x in v.fields.items()})
+    if isinstance(v, Tup):
+        return Tup([_bitnorm(x, depth + 1) for x in v.elems], v.kind)
+    return v
+
+
 def run(ctx):
     chk, fb = ctx.check, ctx.fb
     chk.rule("R14.1", "reduction step: operator i on (operand at i - get_previous(i), operand at i + consume_next(i)), in this order, result stored left; position 0 returned")
@@ -280,6 +314,8 @@ def run(ctx):
             chk.violation("R14.2", "consume", "consume_next does not return get_next(i) after marking exactly position i + get_next(i): %s" % [show(p.result)[:80] for p in ps][:2], loc(cn[0]["span"]))
 
     # ---------------- R14.5 multi-word ------------------------------------------------------------------
+    def cs(v):
+        return rel.cstr(_bitnorm(rel.canon(v)))
     mw = {n: impl_body(fb, "[usize]", n) for n in ("get_previous", "get_next", "ignore", "max_len")}
     if not all(mw.values()):
         chk.violation("R14.5", "anchor", "NumberTracker for [usize] not found")
@@ -305,10 +341,10 @@ def run(ctx):
                 F = rel.Facts(p)
                 at_boundary = None
                 for a, op, bb in F.rel:
-                    if {rel.cstr(a), rel.cstr(bb)} == {base, cut}:
+                    if {cs(a), cs(bb)} == {base, cut}:
                         at_boundary = (op == "==")
                 hd = [x for k, x in p.trace if k == "e" and x[0] == "loophead"]
-                r = rel.cstr(p.result)
+                r = cs(p.result)
                 if at_boundary is None:
                     problems.append("a return does not depend on `own-word answer == distance to the word boundary` (%s)" % r[:80])
                 elif at_boundary is False:
@@ -320,7 +356,7 @@ def run(ctx):
                         problems.append("at the word boundary the neighbouring words are not consulted")
                         continue
                     first = [t for t in loops.trips(p, b["path"], 0)][0]
-                    srcs = [rel.cstr(v) for v in first.pre.values()]
+                    srcs = [cs(v) for v in first.pre.values()]
                     if not any(re.match(src_rx, s) for s in srcs):
                         problems.append("the carry loop does not walk %s" % ("the lower words downwards" if name == "get_previous" else "the higher words upwards, skipping the own word"))
                     if not any(s == base for s in srcs):
@@ -336,7 +372,7 @@ def run(ctx):
                     word = None
                     for a, op, bb in F.rel:
                         for x, y in ((a, bb), (bb, a)):
-                            if rel.const_int(y) == MASK and "Iterator::next(" in rel.cstr(x):
+                            if rel.const_int(y) == MASK and "Iterator::next(" in cs(x):
                                 full, word = (op == "=="), x
                     if full is None:
                         continue
@@ -345,7 +381,7 @@ def run(ctx):
                         if t.post is None:
                             problems.append("an all-ones word ends the carry loop")
                             continue
-                        inc = [L for L in acc if L in t.post and rel.cstr(t.post[L]) in ("binop:Add(%s, 64_usize)" % rel.cstr(t.pre[L]), "binop:Add(%s, usize:64)" % rel.cstr(t.pre[L]))]
+                        inc = [L for L in acc if L in t.post and cs(t.post[L]) in ("binop:Add(%s, 64_usize)" % cs(t.pre[L]), "binop:Add(%s, usize:64)" % cs(t.pre[L]))]
                         if len(inc) != 1:
                             problems.append("an all-ones word does not add a full word (64) to the distance")
                         seen["full"] += 1
@@ -354,14 +390,14 @@ def run(ctx):
                             problems.append("a word that is not all ones does not end the carry loop")
                             continue
                         if p.status == "return":
-                            r = rel.canon(p.result)
+                            r = _bitnorm(rel.canon(p.result))
                             inc_ = r.args[1] if isinstance(r, App) and r.fn == "binop:Add" and len(r.args) == 2 else None
                             while isinstance(inc_, App) and inc_.fn.startswith("cast:IntToInt") and inc_.args:
                                 inc_ = rel.canon(inc_.args[0])
                             good = inc_ is not None and isinstance(r.args[0], Unknown) and \
-                                rel.cstr(inc_) == "core::num::<impl usize>::%s(%s)" % (ones_fn, rel.cstr(word))
+                                cs(inc_) == "core::num::<impl usize>::%s(%s)" % (ones_fn, cs(word))
                             if not good:
-                                problems.append("a partially consumed word contributes %s, expected its %s" % (rel.cstr(r)[:80], ones_fn))
+                                problems.append("a partially consumed word contributes %s, expected its %s" % (cs(r)[:80], ones_fn))
                             seen["partial"] += 1
             if entered and not (seen["full"] and seen["partial"]):
                 problems.append("carry loop trips seen: %s" % seen)
@@ -375,13 +411,13 @@ def run(ctx):
         ps = [p for p in Interp(fb, _P()).run(mw["ignore"], [Sym("a0"), Sym("a1")]) if p.status == "return"]
         wr = [e for p in ps for e in p.events if e[0] == "write_opaque"]
         want = "binop:BitOr(index(a0, %s), binop:Shl(1_usize, %s))" % (SEG, BIT)
-        if len(ps) == 1 and len(wr) == 1 and rel.cstr(wr[0][3]) == want and show(wr[0][1]) == "a0":
+        if len(ps) == 1 and len(wr) == 1 and cs(wr[0][3]) == want and show(wr[0][1]) == "a0":
             # the written element is the one that was read
             chk.ok("R14.5", "[usize]::ignore sets bit i % 64 of word i / 64", "", loc(mw["ignore"]["span"]))
         else:
-            chk.violation("R14.5", "ignore", "[usize]::ignore writes %s, expected word i/64 |= 1 << (i %% 64)" % [rel.cstr(w[3])[:100] for w in wr], loc(mw["ignore"]["span"]))
+            chk.violation("R14.5", "ignore", "[usize]::ignore writes %s, expected word i/64 |= 1 << (i %% 64)" % [cs(w[3])[:100] for w in wr], loc(mw["ignore"]["span"]))
         t_ml, _ = single_path_term(fb, mw["max_len"], 1)
-        if t_ml is not None and rel.cstr(t_ml) in ("binop:Mul(core::slice::<impl [T]>::len(a0), usize:64)", "binop:Mul(usize:64, core::slice::<impl [T]>::len(a0))"):
+        if t_ml is not None and cs(t_ml) in ("binop:Mul(core::slice::<impl [T]>::len(a0), usize:64)", "binop:Mul(usize:64, core::slice::<impl [T]>::len(a0))"):
             chk.ok("R14.5", "[usize]::max_len = words * 64", "", loc(mw["max_len"]["span"]))
         else:
             chk.violation("R14.5", "capacity:[usize]", "[usize]::max_len is %s" % (show(t_ml)[:80] if t_ml is not None else "?"), loc(mw["max_len"]["span"]))
